@@ -63,6 +63,15 @@ Proof.
     symmetry. apply be_pad; [lia|]. rewrite Z2Nat.id by lia. split; [lia|]. apply lt_pow256_byte_len. lia.
 Qed.
 
+(* regression (before 9a4ce40): a 15-bit toy modulus, two octets long; the ciphertext 00 05 was handed to the primitive as the
+   single octet 05 (15 // 8 = 1), now as 00 05.  With a primitive that, like the real one, takes only modulus-length input: *)
+Theorem rsa_pad_old_refuted :
+  rsa_ct_padded (15 / 8) (bytes_to_int [0; 5]) = [5] /\ rsa_ct_padded ((15 + 7) / 8) (bytes_to_int [0; 5]) = [0; 5] /\
+  let bits := fun _ : bytes => 15 in
+  let dec := fun (_ c : bytes) => if (length c =? 2)%nat then Some c else None in
+  rsa_decrypt_m_old bits dec [] (bytes_to_int [0; 5]) = Raise EPrim /\ rsa_decrypt_m bits dec [] (bytes_to_int [0; 5]) = Ok [0; 5].
+Proof. vm_compute. repeat split. Qed.
+
 (* ---------- generic ---------- *)
 Lemma find_exists {A} (f : A -> bool) l : (exists x, In x l /\ f x = true) -> exists y, find f l = Some y.
 Proof.
@@ -240,6 +249,22 @@ Section Msg.
     - exfalso. eapply NE. exact U.
   Qed.
 
+  (* a session key packet of an algorithm without ciphertext class (kept as opaque octets for its recipient) never yields a
+     session key, whatever the key: decrypt_sk has no branch for it (NotImplementedError), and under the RSA / ECDH ids the
+     fields it would read are not there (TypeError) *)
+  Theorem opaque_does_not_open k a x :
+    exists e, PKDEC k a (COpaque x) = Raise e /\ (e = EType \/ e = ENotImpl).
+  Proof.
+    unfold pkesk_decrypt_sk. destruct (a =? 1); [eauto|]. destruct (a =? 18); eauto.
+  Qed.
+  (* ... so a message all of whose public-key session key packets are of that kind opens for no private key *)
+  Theorem key_decrypt_opaque_only holder es ct pt :
+    (forall id a c, In (PK id a c) es -> exists x, c = COpaque x) -> KDEC holder (es, Some ct) <> Ok pt.
+  Proof.
+    intros O H. apply key_decrypt_ok_inv in H as [k [c [alg [key [_ [I [D _]]]]]]].
+    destruct (O _ _ _ I) as [x ->]. destruct (opaque_does_not_open k (k_alg k) x) as [e [R _]]. congruence.
+  Qed.
+
   (* a session key packet that names the key id under another algorithm id: PGPError (it was StopIteration) *)
   Lemma key_decrypt_leaf_no_match k es ct : find (pk_for k) es = None -> LEAF k es ct = Raise EPGP.
   Proof. intros F. unfold key_decrypt_leaf. rewrite F. reflexivity. Qed.
@@ -291,8 +316,10 @@ Section Msg.
   Hypothesis sha1_len : forall x, length (sha1 x) = 20%nat.
   Hypothesis cfb_dec_enc : forall a k x c, cfb_enc a k x = Some c -> cfb_dec a k c = Some x.
   Hypothesis cfb_len : forall a k c x, cfb_dec a k c = Some x -> length x = length c.
+  (* the ciphertext has the length of the modulus in octets, (bits + 7) / 8: what the RSA primitive of `cryptography` (the
+     harness oracle) returns, for every modulus length -- also one that is no multiple of 8 bits *)
   Hypothesis rsa_ok : forall h seed m c, rsa_enc h seed m = Some c ->
-    wf_bytes c /\ Z.of_nat (length c) = rsa_bits h / 8 /\ rsa_bits h < 65536 /\ rsa_dec h c = Some m.
+    wf_bytes c /\ Z.of_nat (length c) = (rsa_bits h + 7) / 8 /\ rsa_bits h + 7 < 65536 /\ rsa_dec h c = Some m.
   Hypothesis ecdh_ok : forall h seed v s, ecdh_gen h seed = Some (v, s) -> ecdh_shared h v = Some s.
   Hypothesis wrap_ok : forall z x c, aes_wrap z x = Some c -> aes_unwrap z c = Some x.
 
@@ -309,10 +336,10 @@ Section Msg.
       destruct (rsa_enc (k_fp k) seed (pkesk_m alg sk)) as [c|] eqn:R; cbn [bind] in E; [|discriminate].
       injection E as <-. rewrite A1. eexists. split; [reflexivity|].
       destruct (rsa_ok _ _ _ _ R) as [W [Lc [Bits D]]].
-      unfold pkesk_decrypt_sk. cbn [Z.eqb Pos.eqb]. unfold rsa_decrypt_m, bytes_to_int.
+      unfold pkesk_decrypt_sk. cbn [Z.eqb Pos.eqb]. unfold rsa_decrypt_m, rsa_ct_padded, bytes_to_int. cbv zeta.
       rewrite <- Lc. rewrite rsa_ct_restore; [|exact W|reflexivity|].
       + rewrite D. cbn [of_opt ct_guard bind]. exact OPEN.
-      + pose proof (Z.div_mod (rsa_bits (k_fp k)) 8 ltac:(lia)). pose proof (Z.mod_pos_bound (rsa_bits (k_fp k)) 8 ltac:(lia)). lia.
+      + pose proof (Z.div_mod (rsa_bits (k_fp k) + 7) 8 ltac:(lia)). pose proof (Z.mod_pos_bound (rsa_bits (k_fp k) + 7) 8 ltac:(lia)). lia.
     - destruct (k_alg k =? 18) eqn:A2; [|discriminate].
       apply Z.eqb_eq in A2. unfold ecdh_encrypt_ct in E.
       destruct (ecdh_gen (k_fp k) seed) as [[v s]|] eqn:G; cbn [of_opt bind fst snd] in E; [|discriminate].
